@@ -62,3 +62,21 @@ pub fn bytes_up_to(max: usize) -> impl Strategy<Value = Vec<u8>> {
 pub fn hex(bytes: &[u8]) -> String {
     bytes.iter().map(|b| format!("{b:02x}")).collect()
 }
+
+/// Called once at start-up, before any thread exists:
+///  * TMPDIR points inside the per-process scratch root, so Tantivy's work directories (and
+///    anything else the library spills) live on tmpfs and die with `cleanup_scratch`;
+///  * a file-size limit (RLIMIT_FSIZE, default 768 MiB, VERIF_FSIZE_MB overrides) with SIGXFSZ
+///    ignored turns a runaway write (e.g. a corrupted length field driving a copy loop) into an
+///    EFBIG error instead of a full disk. No legitimate operation of any check writes that much.
+pub fn protect_environment() {
+    let tmp = scratch_root().join("tmp");
+    let _ = std::fs::create_dir_all(&tmp);
+    std::env::set_var("TMPDIR", &tmp);
+    let mb: u64 = std::env::var("VERIF_FSIZE_MB").ok().and_then(|s| s.parse().ok()).unwrap_or(768);
+    unsafe {
+        libc::signal(libc::SIGXFSZ, libc::SIG_IGN);
+        let lim = libc::rlimit { rlim_cur: mb << 20, rlim_max: mb << 20 };
+        libc::setrlimit(libc::RLIMIT_FSIZE, &lim);
+    }
+}
